@@ -138,6 +138,10 @@ theorem moveHighwater_highwater : (c.moveHighwater v).highwater = if c.is = c.hi
 @[simp] theorem markHighpassed_is : (c.markHighpassed b).is = c.is := by unfold Ctx.markHighpassed; split <;> rfl
 @[simp] theorem moveHighwater_seg : (c.moveHighwater v).seg = c.seg := by unfold Ctx.moveHighwater; split <;> rfl
 @[simp] theorem moveHighwater_is : (c.moveHighwater v).is = c.is := by unfold Ctx.moveHighwater; split <;> rfl
+@[simp] theorem backOnto_seg : (c.backOnto v).seg = c.seg := by unfold Ctx.backOnto; split; exact markHighpassed_seg _ _; rfl
+@[simp] theorem backOnto_is : (c.backOnto v).is = c.is := by unfold Ctx.backOnto; split; exact markHighpassed_is _ _; rfl
+@[simp] theorem backOnto_smap : (c.backOnto v).smap = c.smap := by unfold Ctx.backOnto Ctx.markHighpassed; split; split <;> rfl; rfl
+@[simp] theorem backOnto_highwater : (c.backOnto v).highwater = c.highwater := by unfold Ctx.backOnto; split; exact markHighpassed_highwater _ _; rfl
 end ctx
 
 theorem get_oob (s : Seg) (i : Nat) (h : s.slots.size ≤ i) : s.get i = {} := by
